@@ -18,6 +18,13 @@ func ratZero() *big.Rat { return new(big.Rat) }
 
 // lpInfeasible decides whether {rows: a·y = b, y >= 0} has no solution.
 func lpInfeasible(rows []lpRow, nvars int) bool {
+	if r, ok := lpInfeasible64(rows, nvars); ok {
+		return r
+	}
+	return lpInfeasibleBig(rows, nvars)
+}
+
+func lpInfeasibleBig(rows []lpRow, nvars int) bool {
 	m := len(rows)
 	if m == 0 {
 		return false
